@@ -192,6 +192,11 @@ let handle (toks : string list) : string =
     let ust = ref (Updater.u_init drift) in
     let last_good = ref None in          (* None: daemon not running *)
     let record = ref None in
+    let torn = ref false in              (* the daemon died inside a publication: generation odd *)
+    let cache = ref None in              (* the record the client process holds; None = attached, nothing read yet *)
+    let zero_ts = { Mach.ts_sec = Z0; Mach.ts_nsec = Z0 } in
+    let zero_rec = { Client.c_as_of = zero_ts; Client.c_void_after = zero_ts; Client.c_bound = Z0; Client.c_drift = Z0;
+                     Client.c_reserved = Z0; Client.c_status = Client.Unknown } in
     let rec go k toks =
       if k = 0 then () else
       match toks with
@@ -211,7 +216,7 @@ let handle (toks : string list) : string =
         (match Updater.ustep !ust umsg with
          | None -> out := "p:panic" :: !out
          | Some (u', c) ->
-           ust := u'; record := Some c;
+           ust := u'; record := Some c; torn := false;
            out := (String.concat ":" ["p"; string_of_z c.Client.c_as_of.Mach.ts_sec; string_of_z c.Client.c_as_of.Mach.ts_nsec;
                                       string_of_z c.Client.c_void_after.Mach.ts_sec; string_of_z c.Client.c_void_after.Mach.ts_nsec;
                                       string_of_z c.Client.c_bound; string_of_z c.Client.c_drift; string_of_z (Client.status_code c.Client.c_status)]) :: !out);
@@ -219,7 +224,10 @@ let handle (toks : string list) : string =
       | "C" :: real :: mono :: tl ->
         (match !record with
          | None -> out := "c:noclient" :: !out
-         | Some c ->
+         | Some published ->
+           (* an update in flight (abandoned by a dead daemon): the client answers from what it holds *)
+           if not !torn then cache := Some published;
+           let c = (match !cache with Some c -> c | None -> zero_rec) in
            (match Client.compute_bound_at c (ts_of (z_of_string real)) (ts_of (z_of_string mono)) with
             | Client.Ok ((e, l), st) -> out := (String.concat ":" ["c"; "ok"; string_of_z (ns_of e); string_of_z (ns_of l); string_of_z (Client.status_code st)]) :: !out
             | Client.Err Client.EMalformed -> out := "c:err:malformed" :: !out
@@ -228,6 +236,14 @@ let handle (toks : string list) : string =
         go (k - 1) tl
       | "R" :: _t :: tl ->
         ust := Updater.u_init drift; last_good := None; out := "r" :: !out;
+        go (k - 1) tl
+      | "K" :: _t :: tl ->
+        ust := Updater.u_init drift; last_good := None;
+        (match !record with Some _ -> torn := true | None -> ());
+        out := "k" :: !out;
+        go (k - 1) tl
+      | "F" :: tl ->
+        cache := None; out := "f" :: !out;
         go (k - 1) tl
       | _ -> failwith "wld: bad item" in
     go (int_of_string n) rest;
